@@ -4,7 +4,9 @@
     node  = (0 text) | (1 text)               "literal" | {block evaluating to text}
           | (2 tag (attr …) (node …))         element
           | (3 (node …))                      fragment
+          | (4)                               <!-- comment -->
     attr  = (0 name aval) | (1 name tog) | (2 (name …) b) | (3 prop v) | (4 prop v)
+          | (5) on:/prop:/use:/node_ref (renders nothing)
     aval  = (0 v) string literal | (1) no value | (2 v) {String} or a non-string literal displaying as v
           | (3 b) {bool} or true/false | (4) {None} | (5 v) {Some v}
     tog   = 0 no value | 1 {false} | 2 {true}
@@ -34,7 +36,8 @@ Definition as_attr (s : sexp) : attr :=
              (match as_Z (nth_s 2 s) with 0%Z => None | 1%Z => Some false | _ => Some true end)
   | 2%Z => AClassTup (map as_bytes (as_list (nth_s 1 s))) (as_bool (nth_s 2 s))
   | 3%Z => AStyleProp (as_bytes (nth_s 1 s)) (as_bytes (nth_s 2 s))
-  | _ => AStyleTup (as_bytes (nth_s 1 s)) (as_bytes (nth_s 2 s))
+  | 4%Z => AStyleTup (as_bytes (nth_s 1 s)) (as_bytes (nth_s 2 s))
+  | _ => ASilent
   end.
 
 Fixpoint as_node (s : sexp) {struct s} : node :=
@@ -47,6 +50,7 @@ Fixpoint as_node (s : sexp) {struct s} : node :=
       | Num 2%Z :: tag :: attrs :: Lst ch :: _ =>
           NElem (as_bytes tag) (map as_attr (as_list attrs)) (map as_node ch)
       | Num 3%Z :: Lst ch :: _ => NFrag (map as_node ch)
+      | Num 4%Z :: _ => NComment
       | _ => NText []
       end
   end.
